@@ -237,6 +237,8 @@ BadSpecs(m, S, nvv) ==
          DictSpec("empty", "none", <<>>, NoneI),
          DictSpec("baddef", "const", <<>>, ConstI(CVec(BadLen(m, nvv), 9)))}
         \cup (IF nvv > 1 THEN {ScalarSpec(7), ConstSpec(CVec(nvv - 1, 2)),
+                                (* a plain number as default of a field with several components (accepted and broadcast until the fix of the dictionary default) *)
+                                DictSpec("baddef1", "const", <<>>, ConstI(<<9>>)),
                                 FuncSpec(FA_a(ND(m), nvv - 1), FA_b(nvv - 1, 0)),
                                 ArraySpec(m.n \o <<nvv - 1>>, FALSE, <<>>)} ELSE {})
         \cup (IF m.n[1] >= 2 THEN {FieldSpec("smaller", SrcMesh(m, "smaller"), FA_a(ND(m), nvv), FA_b(nvv, 0))} ELSE {})
@@ -246,6 +248,7 @@ BadSpecs(m, S, nvv) ==
                   ConstI(CVec(nvv, 9))),
          DictSpec("onlylast", "none", [k \in DOMAIN S |-> PatItem(m, nvv, "onlylast", k, Len(S))], NoneI),
          ConstSpec(CVec(BadLen(m, nvv), 2)), TypeSpec("str")}
+        \cup (IF nvv > 1 THEN {DictSpec("baddef1", "const", [k \in DOMAIN S |-> IF k = 1 THEN ConstI(CVec(nvv, k)) ELSE NoneI], ConstI(<<9>>))} ELSE {})
 UpdSpecs(m, S, nvv) ==
    IF S = <<>>
    THEN {FuncSpec(FA_a(ND(m), nvv), FA_b(nvv, 0)), ArraySpec(m.n \o <<nvv>>, FALSE, ArrA(m, nvv)),
